@@ -203,6 +203,47 @@ def operand_reuse_case(op, ka="Parallelogram"):
     return Case(name, body, goals, family="compose/operand_reuse", params=dict(op=op, a=ka))
 
 
+def two_partial_evaluations_case():
+    """history: a circle whose radius is ONE function of t and s is evaluated at t=v1 and again at t=v3; the first result
+    still measures at v1 (for every row of s), and the product of the first result with an interval over t is a product
+    of independent factors (exact measure)"""
+    name = "compose/two_partial_evaluations/Circle[r(t,s)]"
+
+    def body(env):
+        from .c17 import circle_mixed
+        L = env.L
+        sh = circle_mixed(env, tag="A")
+        v1, v3 = env.tensor("v1", ()), env.tensor("v3", ())
+        e1, e3 = SH.elems(env, v1)[0], SH.elems(env, v3)[0]
+        i = SH.interval(env, tag="I", var="t")
+        P, rows = SH.params(env, [("s", 1)], 2)
+        for prm in rows:
+            env.assume(sh.oset.positive(dict(prm, t=[e1]), L))
+            env.assume(sh.oset.positive(dict(prm, t=[e3]), L))
+        env.assume(i.oset.positive({}, L))
+        c1 = sh.dom(t=v1)
+        c3 = sh.dom(t=v3)
+        vol1 = c1.volume(P).reshape(-1)
+        vol3 = c3.volume(P).reshape(-1)
+        prod = (c1 * i.dom).volume(P).reshape(-1)
+        return dict(vol1=vol1, vol3=vol3, prod=prod,
+                    want1=[sh.oset.volume(dict(prm, t=[e1]), L) for prm in rows],
+                    want3=[sh.oset.volume(dict(prm, t=[e3]), L) for prm in rows], ilen=i.oset.volume({}, L),
+                    nv1=set(c1.necessary_variables))
+
+    def goals(o, L, env):
+        yield "first_result_declares_the_remaining_variable_only", o["nv1"] == {"s"}
+        yield "rows", len(o["vol1"]) == len(o["vol3"]) == len(o["prod"]) == 2
+        if not (len(o["vol1"]) == len(o["vol3"]) == len(o["prod"]) == 2):
+            return
+        for r in range(2):
+            yield "first_evaluation_measures_at_its_own_value[row%d]" % r, L.eq(o["vol1"][r], o["want1"][r])
+            yield "second_evaluation_measures_at_its_own_value[row%d]" % r, L.eq(o["vol3"][r], o["want3"][r])
+            yield "product_with_interval_is_multiplicative[row%d]" % r, L.eq(o["prod"][r], o["want1"][r] * o["ilen"])
+
+    return Case(name, body, goals, family="compose/two_partial_evaluations")
+
+
 def density_case(kind, boundary, grid, user_volume=None):
     """user_volume: 'translate' / 'rotate' -- the domain is wrapped and the WRAPPER gets a user-set volume (a symbolic (1,1)
     tensor): the density then refers to that volume"""
@@ -275,6 +316,7 @@ def cases(tier):
     cs.append(comp_case("cut_contained_called", "Parallelogram", "Circle"))
     cs.append(comp_case("union_disjoint_called", "Circle", "Circle"))
     cs.append(product_history_case())
+    cs.append(two_partial_evaluations_case())
     for op in ("cut", "union", "intersection", "cut_boundary"):
         cs.append(operand_reuse_case(op))
     if tier == "thorough":
